@@ -39,3 +39,13 @@ for m, q, f in ctx.repo.functions():
         out['%s.%s' % (m.name, q)] = d
 json.dump(out, open(callsigs.IFCHAINS_REF, 'w'), indent=0, sort_keys=True)
 print(sum(len(v) for v in out.values()), 'if pairs in', len(out), 'functions')
+# guard reference
+out = {}
+for m, q, f in ctx.repo.functions():
+    if m.name in ('cencoding', 'speedups'):
+        continue
+    d = callsigs.guard_texts(f)
+    if d:
+        out['%s.%s' % (m.name, q)] = d
+json.dump(out, open(callsigs.GUARDS_REF, 'w'), indent=0, sort_keys=True)
+print(sum(len(v) for v in out.values()), 'guards in', len(out), 'functions')
